@@ -92,6 +92,15 @@ var contracts = map[string]*Contract{
 	"bytes.TrimRight":                              {Det: true, Note: "result is a prefix of the argument: 0 <= len(result) <= len(arg)"},
 	"encoding/xml.NewDecoder":                      {Fresh: true, NonNil: []int{0}, Note: "decoder over the reader; Decode(v) on a fresh decoder is Unmarshal(all bytes, v)"},
 	"(*encoding/xml.Decoder).Decode":               {Writes: []int{1}, Note: "canonicalised to xml.Unmarshal when the reader's bytes are known"},
+	"errors.Is":                                    {Note: "compares along the Unwrap chain; reads only"},
+	"errors.Unwrap":                                {Note: "reads only"},
+	"errors.As":                                    {Writes: []int{1}, Note: "stores the match into target"},
+	"(*sync/atomic.Uint64).Add":                    {Writes: []int{0}, ConcSafeRecv: true, Note: "atomic"},
+	"(*sync/atomic.Uint64).Load":                   {ConcSafeRecv: true, Note: "atomic"},
+	"(*sync/atomic.Int64).Add":                     {Writes: []int{0}, ConcSafeRecv: true, Note: "atomic"},
+	"(*sync/atomic.Int64).Load":                    {ConcSafeRecv: true, Note: "atomic"},
+	"(*sync/atomic.Uint32).Add":                    {Writes: []int{0}, ConcSafeRecv: true, Note: "atomic"},
+	"(*sync/atomic.Uint32).Load":                   {ConcSafeRecv: true, Note: "atomic"},
 	"encoding/base64.NewEncoder":                   {ResultOf: []int{1}, NonNil: []int{0}, Note: "streaming encoder over w: the Encoding is only read"},
 	"(io.WriteCloser).Write":                       {Writes: []int{0}, Note: "io.Writer: writes to the receiver, must not modify p"},
 	"(io.WriteCloser).Close":                       {Writes: []int{0}, Note: "flushes the receiver"},
